@@ -610,16 +610,18 @@ Definition run_urlt (ws : list bytes) : bytes :=
           let parse := fun x : bytes => if bytes_eqb x s then o else None in
           match url_new parse s with
           | None =>
-              unwords [s2b "invalid";
-                       s2b "de=" ++ match url_deserialize parse s with None => s2b "err" | Some _ => s2b "ok" end]
+              let d := match url_deserialize parse s with None => s2b "err" | Some _ => s2b "ok" end in
+              unwords [s2b "invalid"; s2b "de=" ++ d; s2b "dev=" ++ d; s2b "der=" ++ d]
           | Some v =>
               let de := match url_deserialize parse (url_serialize v) with
-                        | Some v' => join [","%char] [s2b "ok"; tok_bytes (uv_url v'); tok_bool (url_eqb v v')]
+                        | Some v' => join [","%char] [s2b "ok"; tok_bytes (uv_url v'); tok_bytes (url_display v');
+                                                       tok_bool (url_eqb v v')]
                         | None => s2b "err"
                         end in
               let f := url_from_url (uv_url v) in
               unwords [s2b "ok"; tok_bytes (url_display v); tok_bytes (url_display v);
                        tok_bytes (url_serialize v); tok_bytes (uv_url v); s2b "de=" ++ de;
+                       s2b "dev=" ++ de; s2b "der=" ++ de;
                        s2b "fromurl=" ++ tok_bytes (url_display f) ++ ","%char :: tok_bytes (uv_url f)]
           end
       | _, _ => bad_case
